@@ -165,14 +165,24 @@ func (s *System) StepFrom(st *State, pi int) (bool, *State, []Choice, error) {
 
 // Dump prints st as a TLA+ record of all spec variables (same format as System.DumpState).
 func (s *System) Dump(st *State) string {
-	var parts []string
+	vs := s.DumpVars(st)
+	parts := make([]string, len(vs))
+	for i, v := range vs {
+		parts[i] = v[0] + " |-> " + v[1]
+	}
+	return "[" + strings.Join(parts, ", ") + "]"
+}
+
+// DumpVars returns the spec variables of st as (name, TLA+ text) pairs, in the order Dump prints them.
+func (s *System) DumpVars(st *State) [][2]string {
+	var parts [][2]string
 	pcs := make([]string, 0, len(s.Procs))
 	for i, p := range s.Procs {
 		pcs = append(pcs, fmt.Sprintf("(%s :> %q)", p.Self.String(), st.P[i].PC))
 	}
-	parts = append(parts, "pc |-> ("+strings.Join(pcs, " @@ ")+")")
+	parts = append(parts, [2]string{"pc", "(" + strings.Join(pcs, " @@ ") + ")"})
 	for _, n := range s.W.Names {
-		parts = append(parts, n+" |-> "+st.G[n].TLA())
+		parts = append(parts, [2]string{n, st.G[n].TLA()})
 	}
 	type kv struct{ self, val string }
 	locals := map[string][]kv{}
@@ -215,16 +225,16 @@ func (s *System) Dump(st *State) string {
 	sort.Strings(names)
 	for _, n := range names {
 		if singles[n] {
-			parts = append(parts, n+" |-> "+locals[n][0].val)
+			parts = append(parts, [2]string{n, locals[n][0].val})
 			continue
 		}
 		var es []string
 		for _, e := range locals[n] {
 			es = append(es, fmt.Sprintf("(%s :> %s)", e.self, e.val))
 		}
-		parts = append(parts, n+" |-> ("+strings.Join(es, " @@ ")+")")
+		parts = append(parts, [2]string{n, "(" + strings.Join(es, " @@ ") + ")"})
 	}
-	return "[" + strings.Join(parts, ", ") + "]"
+	return parts
 }
 
 // StackTLA projects the runtime's .stack (sequence of records resource-name -> saved value, with
